@@ -373,4 +373,57 @@ theorem undo_cmdDo (sp : CmdSpec) (b : Body) (h : WF b) (hc : clean sp b = true)
   | apply k ov => exact restore_combineData _ _ b h
   | applyRoi k => exact restore_combineData _ _ b h
 
+/-! ## 4. `AddData` / `RemoveData` as the property demands them are undone exactly, always -/
+
+theorem insertIdx_erase (l : List Nat) (d : Nat) (h : d ∈ l) :
+    (l.erase d).insertIdx (l.idxOf d) d = l := by
+  induction l with
+  | nil => cases h
+  | cons a t ih =>
+    by_cases he : a = d
+    · subst he; simp
+    · have hd : d ∈ t := by
+        rcases List.mem_cons.mp h with h | h
+        · exact absurd h.symm he
+        · exact h
+      have hb : (a == d) = false := by simpa using he
+      simp [List.idxOf_cons, hb, ih hd]
+
+theorem undo_removeData_ideal (d : Nat) (b : Body) (h : WF b) (hd : d ∈ b.datasets) :
+    insertData (b.datasets.idxOf d) d (removeData d b) = b := by
+  have hnot : d ∉ b.datasets.erase d := fun hin => ((h.nodupD.mem_erase_iff).mp hin).1 rfl
+  unfold removeData
+  rw [if_pos hd]
+  unfold insertData
+  simp only [hnot, if_false]
+  apply Body.ext <;> try rfl
+  · exact insertIdx_erase _ _ hd
+  · show upd (upd b.dsubs d _) d (upd b.dsubs d _ d ++ liveIds b) = b.dsubs
+    rw [upd_same, upd_upd, h.inSubs _ hd, foldl_erase_self, List.nil_append]
+    exact upd_self _ _ _ (h.inSubs _ hd)
+
+theorem wf_ideal_cmdDo (sp : CmdSpec) (b : Body) (h : WF b) : WF (Ideal.cmdDo sp b).1 := by
+  cases sp with
+  | addData d => exact wf_appendData d b h
+  | removeData d => exact wf_removeData d b h
+  | apply k ov => exact wf_combineData _ _ b h
+  | applyRoi k => exact wf_combineData _ _ b h
+
+/-- **Every command of the ideal semantics is undone exactly**, without any condition. -/
+theorem ideal_undo_cmdDo (sp : CmdSpec) (b : Body) (h : WF b) :
+    Ideal.cmdUndo ⟨sp, (Ideal.cmdDo sp b).2⟩ (Ideal.cmdDo sp b).1 = b := by
+  cases sp with
+  | addData d =>
+    by_cases hd : d ∈ b.datasets
+    · simp [Ideal.cmdDo, Ideal.cmdUndo, hd, appendData]
+    · have := undo_addData d b h hd
+      simpa [Ideal.cmdDo, Ideal.cmdUndo, hd] using this
+  | removeData d =>
+    by_cases hd : d ∈ b.datasets
+    · have := undo_removeData_ideal d b h hd
+      simpa [Ideal.cmdDo, Ideal.cmdUndo, hd] using this
+    · simp [Ideal.cmdDo, Ideal.cmdUndo, hd, removeData]
+  | apply k ov => exact restore_combineData _ _ b h
+  | applyRoi k => exact restore_combineData _ _ b h
+
 end GlueVerif.Lemmas.C13
